@@ -42,8 +42,7 @@ inductive PVal (A D : Type)
   | ndobj (dtype shape : A) (elems : List (PVal A D))   -- object-dtype ndarray: elements in logical C order
   | task (name : A) (args : List (PVal A D)) (kwargs : List (PVal A D × PVal A D))   -- name = pickle of the qualified name bytes
   | tasklet (base : PVal A D) (f : PVal A D)
-  | getitem (idx : PVal A D)             -- jug.task._getitem(idx)
-  | hashed (v : PVal A D)                -- an object whose `__jug_hash__` is `hash_one(v)` (block_access, block_access_slice, tagged functions)
+  | hashed (v : PVal A D)                -- an object whose `__jug_hash__` is `hash_one(v)`: `_getitem(i)` (v = ('jug.task._getitem', i)), block_access, block_access_slice
 
 variable {A D : Type}
 
@@ -81,8 +80,6 @@ def ser (enc : Enc A D) : PVal A D → List (Tok A D)
       (.atom (enc.pkStr "kwargs") :: .mark .dict :: serEntries enc (sortByDigest enc (serKVs enc kwargs))))))]
   | .tasklet base f => [.dig (enc.sha (
       .mark .tasklet :: .atom (enc.pkStr "base") :: (ser enc base ++ (.atom (enc.pkStr "f") :: ser enc f))))]
-  | .getitem idx => [.dig (enc.sha (.atom (enc.pkStr "hash1") ::
-      .mark .tuple :: .atom (enc.pkNat 0) :: .atom (enc.pkStr "jug.task._getitem") :: .atom (enc.pkNat 1) :: ser enc idx))]
   | .hashed v => [.dig (enc.sha (.atom (enc.pkStr "hash1") :: ser enc v))]
 /-- `hash_update(M, enumerate(xs))` starting at index `k` -/
 def serSeq (enc : Enc A D) : Nat → List (PVal A D) → List (Tok A D)
